@@ -153,38 +153,87 @@ def _collector(ctx):
 def r2(ctx, R):
     R.rule("C18.R2", "every file added to the start-up list has passed all four filters (regular file, suffix, not excluded path, not excluded suffix); candidates are direct directory entries", floor=5, confirmed=5)
     g = _collector(ctx)
-    ret = [n for n in ctx.m.walk_own(g.node) if isinstance(n, ast.Return) and isinstance(n.value, ast.Name)][0].value.id
     F = ctx.facts(g, interproc=False)
-    appends = [c for c in calls_in(g.node) if isinstance(c.func, ast.Attribute) and c.func.attr in ("append", "extend", "insert") and isinstance(c.func.value, ast.Name) and c.func.value.id == ret]
-    if not appends:
-        R.undecided("C18.R2", g.short, "append", loc(g, g.node), "no append to the returned list")
-        return
-    for c in appends:
-        facts = F.at(c) or set()
-        conds = [(fa[1], fa[2]) for fa in facts if fa[0] == "cond"]
-        st = ctx.m.enclosing_stmt(c)
 
-        def has(pred):
-            for txt, pol in conds:
+    def conjuncts(e, pol=True):
+        """[(expr, polarity)] that all hold when `e` has truth value `pol`"""
+        if isinstance(e, ast.UnaryOp) and isinstance(e.op, ast.Not):
+            return conjuncts(e.operand, not pol)
+        if isinstance(e, ast.BoolOp) and ((isinstance(e.op, ast.And) and pol) or (isinstance(e.op, ast.Or) and not pol)):
+            out = []
+            for v in e.values:
+                out += conjuncts(v, pol)
+            return out
+        return [(e, pol)]
+
+    def cond_exprs(fn, facts):
+        out = []
+        for fa in facts:
+            if fa[0] == "cond":
                 try:
-                    e = ast.parse(txt, mode="eval").body
+                    out += conjuncts(ast.parse(fa[1], mode="eval").body, fa[2])
                 except SyntaxError:
-                    continue
-                if pred(e, pol):
-                    return True
-            return False
+                    pass
+        return out
 
-        checks = {
-            "regular file": lambda e, pol: pol and isinstance(e, ast.Call) and ctx.m.dotted(g.rel, e.func) in ("os.path.isfile",) or (pol and isinstance(e, ast.Call) and isinstance(e.func, ast.Attribute) and e.func.attr == "is_file"),
+    def checks_for(fn):
+        return {
+            "regular file": lambda e, pol: pol and isinstance(e, ast.Call) and ctx.m.dotted(fn.rel, e.func) in ("os.path.isfile",) or (pol and isinstance(e, ast.Call) and isinstance(e.func, ast.Attribute) and e.func.attr == "is_file"),
             "included suffix": lambda e, pol: pol and isinstance(e, ast.Call) and isinstance(e.func, ast.Attribute) and e.func.attr in ("search", "fullmatch") and "SRC_EXT" in unparse(e.func.value).upper(),
             "not in excluded paths": lambda e, pol: (not pol) and isinstance(e, ast.Compare) and isinstance(e.ops[0], ast.In) and "excl_paths" in unparse(e.comparators[0]) or (pol and isinstance(e, ast.Compare) and isinstance(e.ops[0], ast.NotIn) and "excl_paths" in unparse(e.comparators[0])),
             "not an excluded suffix": lambda e, pol: (not pol) and "excl_suffixes" in unparse(e) and "endswith" in unparse(e),
         }
-        for name, pred in checks.items():
-            if has(pred):
-                R.ok("C18.R2", g.short, f"{key(g, st)} :: {name}", loc(g, c), "filter dominates the append")
+
+    def verdicts(fn, conds, where_node, label):
+        for name, pred in checks_for(fn).items():
+            if any(pred(e, pol) for e, pol in conds):
+                R.ok("C18.R2", fn.short, f"{label} :: {name}", loc(fn, where_node), "filter dominates the acceptance")
             else:
-                R.violation("C18.R2", g.short, f"{key(g, st)} :: {name}", loc(g, c), f"a path reaches the append without the '{name}' filter: files outside the configured set are indexed")
+                R.violation("C18.R2", fn.short, f"{label} :: {name}", loc(fn, where_node), f"a path accepts a file without the '{name}' filter: files outside the configured set are indexed")
+
+    rets = [n for n in ctx.m.walk_own(g.node) if isinstance(n, ast.Return) and n.value is not None]
+    ret_names = [n.value.id for n in rets if isinstance(n.value, ast.Name)]
+    appends = [c for c in calls_in(g.node) if isinstance(c.func, ast.Attribute) and c.func.attr in ("append", "extend", "insert") and isinstance(c.func.value, ast.Name) and c.func.value.id in ret_names]
+    comps = [deref(ctx, g, n.value) for n in rets]
+    comps = [c for c in comps if isinstance(c, (ast.ListComp, ast.GeneratorExp, ast.SetComp))]
+    if appends:
+        for c in appends:
+            st = ctx.m.enclosing_stmt(c)
+            verdicts(g, cond_exprs(g, F.at(c) or set()), c, key(g, st))
+    elif comps:
+        # [path for d in dirs for name in os.listdir(d) if <filters>], the filters inline or in a predicate method
+        for comp in comps:
+            base = []
+            preds = []
+            for gen in comp.generators:
+                for i in gen.ifs:
+                    for e, pol in conjuncts(i):
+                        if pol and isinstance(e, ast.Call):
+                            k_, tg = ctx.r.resolve_call(g, e)
+                            tg = [t for t in tg if t in ctx.m.funcs] if k_ in ("typed", "nested", "module", "import", "super") else []
+                            if len(tg) == 1:
+                                preds.append(ctx.m.funcs[tg[0]])
+                                continue
+                        base.append((e, pol))
+            if not preds:
+                verdicts(g, base, comp, "comprehension filter")
+            for P in preds:
+                FP = ctx.facts(P, interproc=False)
+                n_acc = 0
+                for r in (n for n in ctx.m.walk_own(P.node) if isinstance(n, ast.Return)):
+                    v = r.value
+                    if v is None or (isinstance(v, ast.Constant) and not v.value):
+                        continue
+                    n_acc += 1
+                    conds = cond_exprs(P, FP.at(r) or set())
+                    if not (isinstance(v, ast.Constant) and v.value is True):
+                        conds = conds + conjuncts(v)
+                    verdicts(P, conds + base, r, key(P, r))
+                if n_acc == 0:
+                    R.undecided("C18.R2", P.short, "accepting return", loc(P, P.node), "the predicate has no accepting return")
+    else:
+        R.undecided("C18.R2", g.short, "collector shape", loc(g, g.node), "neither appends to the returned list nor a filtered comprehension")
+        return
     # candidates: direct entries only
     walk = [c for c in calls_in(g.node) if isinstance(c.func, (ast.Attribute, ast.Name)) and (ctx.m.dotted(g.rel, c.func) in ("os.walk", "glob.glob", "glob.iglob") or (isinstance(c.func, ast.Attribute) and c.func.attr in ("rglob", "walk")))]
     if walk:
